@@ -249,4 +249,48 @@ theorem readJit_ok {entries : List JitEntry} {fileLen rel size fileOff n : Nat}
         refine ⟨e, hmem, hle, by omega, rfl, rfl, by omega, hio⟩
       · simp at h
 
+/-! ### Rows of a listing over a file range -/
+
+theorem decode_file_rows {adjust len fo n : Nat} {D : ByteDec} {file : List UInt8}
+    (hD : ByteDecOK adjust D) (hadj : 1 ≤ adjust) (hfile : fo + n ≤ file.length)
+    {items : List Item} {size : Nat}
+    (h : decode adjust len n (decAt D (fileBytes file fo n)) = .done items size) :
+    chainOk (decAt D (fileBytes file fo n)) adjust len 0 items size = true ∧ size ≤ n ∧
+    (∀ it ∈ items,
+      (it.inv = false → ∃ l, D (fileBytes file (fo + it.off) (n - it.off)) = .ok l ∧ 1 ≤ l ∧ it.off + l ≤ n) ∧
+      (it.inv = true → D (fileBytes file (fo + it.off) (n - it.off)) = .invalid ∧ it.off + adjust ≤ n ∧
+          shown (fileBytes file fo n) adjust it.off = fileBytes file (fo + it.off) adjust)) ∧
+    (len ≤ size ∨ D (fileBytes file (fo + size) (n - size)) = .exhausted) := by
+  have hor := decAt_oracle hadj hD (fileBytes file fo n)
+  rw [fileBytes_length hfile] at hor
+  obtain ⟨hc, hf, hall, hcomp⟩ := decode_facts hor.1 hor.2 hadj h
+  refine ⟨hc, hf, ?_, ?_⟩
+  · intro it hit
+    obtain ⟨s, hs, hs1, hw⟩ := hall it hit
+    constructor
+    · intro hi
+      have hd := stepAt_decoded hi hs
+      unfold decAt at hd
+      rw [fileBytes_drop] at hd
+      exact ⟨s, hd, hs1, hw⟩
+    · intro hi
+      obtain ⟨hd, rfl⟩ := stepAt_undecodable hi hs
+      unfold decAt at hd
+      rw [fileBytes_drop] at hd
+      exact ⟨hd, hw, shown_fileBytes file fo n _ _ hw⟩
+  · rcases hcomp with h1 | h2
+    · exact Or.inl h1
+    · right
+      unfold decAt at h2
+      rw [fileBytes_drop] at h2
+      exact h2
+
+/-- a range of a range of the file is a range of the file -/
+theorem fileBytes_fileBytes (file : List UInt8) (start size fo n : Nat) (h : fo + n ≤ size) :
+    fileBytes (fileBytes file start size) fo n = fileBytes file (start + fo) n := by
+  unfold fileBytes
+  rw [List.drop_take, List.drop_drop, List.take_take]
+  congr 1
+  omega
+
 end Asm
